@@ -75,6 +75,15 @@ pub fn run(a: &Args) -> ShardOut {
 fn history(w: &mut World, rounds: u64, soups: usize) -> Result<(), String> {
     // members differ in the credential types they support
     w.p_custom_cred = (1, 2);
+    // half of the groups authorise an external sender
+    if w.rng.chance(1, 2) {
+        let cs = w.suite_of(w.cfg.provs[0]);
+        if let Ok((sk, pk)) = cs.signature_key_generate() {
+            let si = mls_rs::identity::SigningIdentity::new(mls_rs::identity::basic::BasicCredential::new(b"external-sender".to_vec()).into_credential(), pk);
+            w.keep_exts.push(super::c16::external_senders_ext(&si));
+            w.ext_signer = Some((sk, si));
+        }
+    }
     let n0 = w.rng.range(4, 6);
     w.bootstrap(n0, &mut NoHooks)?;
     // one external PSK everybody knows
@@ -680,13 +689,64 @@ fn soup_inner(w: &mut World, kp: &mut KpMaker, c: usize, cleaf: u32, timed: bool
                 touches: None,
                 conflict_key: None,
                 bytes: None,
-                add_caps: None,
+                add_caps: Some((false, false)),
             });
             sent.push(Sent {
                 idx: items.len() - 1,
                 proposer: usize::MAX,
                 msg: m,
             });
+        }
+    }
+    // a proposal of the external sender the group context authorises
+    if let (Some((sk, si)), true) = (w.ext_signer.clone(), w.rng.chance(1, 3)) {
+        use mls_rs::external_client::builder::ExternalClientBuilder;
+        let prov = w.cfg.provs[w.rng.below(w.cfg.provs.len())];
+        let ec = ExternalClientBuilder::new()
+            .identity_provider(VIdent { custom_ok: true, ..Default::default() })
+            .crypto_provider(crate::anycrypto::AnyCrypto::new(prov))
+            .extension_types([ExtensionType::new(EXT_A), ExtensionType::new(EXT_B)])
+            .custom_proposal_types([ProposalType::new(CUSTOM_PROP), ProposalType::new(CUSTOM_PROP_PATH)])
+            .signer(sk, si)
+            .build();
+        let gi = guarded(|| clones[&act[0]].group_info_message(true)).ok().and_then(|r| r.ok());
+        if let Some(Ok(Ok(mut eg))) = gi.map(|gi| guarded(|| ec.observe_group(gi, None, None))) {
+            let kind = w.rng.below(3);
+            let cands: Vec<usize> = act.iter().copied().filter(|m| *m != c && !reserved.contains(&w.leaf_of(*m))).collect();
+            let made: Option<(&'static str, MlsMessage, Option<u32>, Option<Vec<u8>>, Option<(bool, bool)>)> = match kind {
+                0 if !cands.is_empty() && act.len() > 3 => {
+                    let pick = cands[w.rng.below(cands.len())];
+                    let l = w.leaf_of(pick);
+                    reserved.insert(l);
+                    guarded(|| eg.propose_remove(l, vec![])).ok().and_then(|r| r.ok()).map(|m| ("external_sender_remove", m, Some(l), None, None))
+                }
+                1 => kp.fresh(w, 0).and_then(|k| {
+                    let key = k.to_bytes().ok();
+                    let caps = kp.last_caps;
+                    guarded(|| eg.propose_add(k, vec![])).ok().and_then(|r| r.ok()).map(|m| ("external_sender_add", m, None, key, Some(caps)))
+                }),
+                _ => {
+                    let l = w.random_gce();
+                    guarded(|| eg.propose_group_context_extensions(l, vec![])).ok().and_then(|r| r.ok()).map(|m| ("external_sender_gce", m, None, Some(b"gce".to_vec()), None))
+                }
+            };
+            if let Some((kind, m, touches, conflict_key, add_caps)) = made {
+                items.push(Item {
+                    kind,
+                    offender: None,
+                    by_ref: Some(usize::MAX - 1),
+                    act: Act::Update,
+                    touches,
+                    conflict_key,
+                    bytes: None,
+                    add_caps,
+                });
+                sent.push(Sent {
+                    idx: items.len() - 1,
+                    proposer: usize::MAX - 1,
+                    msg: m,
+                });
+            }
         }
     }
     // who misses what
